@@ -584,6 +584,9 @@ MANIFEST = dict(
           'without CR, optional leading CRLF, any number of parts with >= 1 header line free of CR/LF and data free of '
           'the delimiter, any epilogue) is a wf_prefix, C06_wf_prefix_closed that wf_prefix is prefix closed, and '
           'C06_grammar_split_independent states the property directly on grammar bodies (reference result, no error). '
+          'C06_data_sections_closed_any_input holds WITHOUT wf_prefix (any bytes, any chunking): every Data section '
+          'reported after the preamble ends at a real occurrence of CRLF--B in the concatenated body, which is the first '
+          'one at or after the section start (no invented and no swallowed delimiter). '
           'Staging lemmas, each a theorem of its own: C06_match_tail_unique/_spec, C06_eat_data_spec (block-wise '
           'search with carry = first occurrence in carried prefix ++ chunk[base:], else longest partial match), '
           'C06_eat_headers_spec, C06_carry_is_longest_partial_match. The model follows multipart.py branch for branch '
